@@ -13,7 +13,7 @@ LEVEL = 'exploration'
 RULE = ('Triples (p,q,r): each operand is a unit quaternion from the shared mixture (random, axis-angle with log-uniform '
         'angles, specials, denormal components) scaled by 1 or by 10**U(-3,3) (non-normalised, versor=False). Checked with '
         'the package operators against an own Hamilton product: associativity, |pq|=|p||q|, (pq)*=q*p*, q q^-1 = q^-1 q = 1, '
-        'mult_L/mult_R (methods and free functions), agreement of *, @, .product, q_prod, and for the same quaternion stored '
+        'mult_L/mult_R (methods and free functions), agreement of *, @, .product, q_prod; every view of one object (buffer, .A, w/x/y/z, to_array, iteration, indexing) and its meaning as left and right operand agree, as built, after normalize() and with the default versor=True; and for the same quaternion stored '
         "scalar-last (order='S'): w,x,y,z,v, conjugate, inverse, product, to_DCM, to_axang, to_angles, exp, log, mult_L/R. "
         'Non-trivial: no operand within 1e-3 rad of +-identity (inverse law: |q| outside [0.9,1.1]); distinct = case hash.')
 ASSUMPTIONS = ['tolerance 1e-12 relative to the product of the operand norms',
@@ -142,6 +142,37 @@ def evaluate(case, ctx):
     ok, M = ctx.call('q_mult_R', lambda: _arr(ori.q_mult_R(np.array(q))))
     if ok and _err(M @ pu, oracle.qmul(pu, qu)) > TOL*4:
         ctx.fail('mult_R|free_function', f'err {_err(M @ pu, oracle.qmul(pu, qu)):.3e}')
+
+    # one object, one quaternion: every view of a Quaternion (ndarray buffer, .A, w/x/y/z, to_array, iteration) holds the same
+    # numbers, before and after the explicit in-place normalize(), and the object means the same as right and as left operand
+    for how in ('as_built', 'normalized', 'versor_default'):
+        def make():
+            X = Quaternion(np.array(q), versor=False) if how != 'versor_default' else Quaternion(np.array(q))
+            if how == 'normalized':
+                X.normalize()
+            return X
+        ok, X = ctx.call(f'views:{how}', make)
+        if not ok:
+            continue
+        want = q if how == 'as_built' else q/nq
+        sc = nq if how == 'as_built' else 1.0
+        views = [('asarray', lambda: np.array(np.asarray(X), dtype=float)), ('A', lambda: np.array(X.A, dtype=float)),
+                 ('wxyz', lambda: np.array([X.w, X.x, X.y, X.z], dtype=float)), ('to_array', lambda: _arr(X.to_array())),
+                 ('iteration', lambda: np.array([float(c) for c in X])), ('index', lambda: np.array([float(X[i]) for i in range(4)]))]
+        for vname, f in views:
+            okv, v = ctx.call(f'views:{how}:{vname}', f)
+            if okv and (v.shape != (4,) or _err(v, want) > 4e-16*sc):
+                ctx.fail(f'views|{how}|{vname}', f'{v.tolist()} but the quaternion is {np.asarray(want).tolist()}')
+        for oname, f, ref, scl in [
+            ('right_operand_of_*', lambda: _arr(P * X), oracle.qmul(p, want), norms[0]*sc),
+            ('right_operand_of_product', lambda: _arr(P.product(X)), oracle.qmul(p, want), norms[0]*sc),
+            ('left_operand_of_*', lambda: _arr(X * np.array(p)), oracle.qmul(want, p), norms[0]*sc),
+            ('q_prod_first', lambda: _arr(ori.q_prod(X, np.array(p))), oracle.qmul(want, p), norms[0]*sc),
+            ('q_prod_second', lambda: _arr(ori.q_prod(np.array(p), X)), oracle.qmul(p, want), norms[0]*sc),
+        ]:
+            oko, v = ctx.call(f'views:{how}:{oname}', f)
+            if oko and _err(v, ref) > TOL*scl:
+                ctx.fail(f'views|{how}|{oname}', f'err {_err(v, ref):.3e} (scale {scl:.3e})')
 
     # scalar-last storage exposes the same quaternion
     for versor in (False, True):
